@@ -42,6 +42,13 @@ class _Raise(Exception):
         self.what = what
 
 
+_PROPS = {
+    "realbody": lambda c: abs(c.attrs["open"] - c.attrs["close"]),
+    "high_low": lambda c: abs(c.attrs["high"] - c.attrs["low"]),
+    "positive": lambda c: c.attrs["open"] < c.attrs["close"],
+}
+
+
 # ---- the contracts ----------------------------------------------------------------------------------------------------------------
 
 
@@ -59,6 +66,8 @@ def spec_rbc(c, name):
     a = c.attrs.get(name)
     if a is not None:
         return a
+    if name in _PROPS:
+        return _PROPS[name](c)  # a property of the candle (geometry) is an attribute like any other
     for store in (c.attrs["indicators"], c.attrs["sub_indicators"]):
         if name in store:
             return store[name]
@@ -183,7 +192,7 @@ def eval_helpers(repo) -> Dict[str, Tuple[str, str]]:
 
     # reading_by_candle
     res = []
-    for nm in ("X", "S", "N", "Z", "F", "close", "volume", "D", "D.a", "D.b", "D.zz", "X.a", "N.a", "D2.a", "missing", "missing.a", "a.b.c"):
+    for nm in ("X", "S", "N", "Z", "F", "close", "volume", "D", "D.a", "D.b", "D.zz", "X.a", "N.a", "D2.a", "missing", "missing.a", "a.b.c", "realbody", "high_low", "positive"):
         it, fn = module_fn("reading_by_candle")
         if fn is None:
             res.append(("undecided", "reading_by_candle not found"))
